@@ -291,7 +291,9 @@ def run_property(pid: str, tier: str, seed: int, only_sub=None) -> int:
                     cur["count"] += f["count"]
         per_sub[sub.name] = {"evaluations": sum(r["evaluations"] for r in rs), "digests": dig,
                              "classes": classes, "samples": samples[:4], "failures": fails,
-                             "known": known, "exhaustive": sub.exhaustive,
+                             "known": known,
+                             "exhaustive": (sub.exhaustive.get(tier, False) if isinstance(sub.exhaustive, dict)
+                                            else bool(sub.exhaustive)),
                              "wall": max(r["wall"] for r in rs)}
 
     # 3. write replays for new violations
